@@ -64,7 +64,10 @@ Inductive op :=
 | OReconnectOmit (om : N)         (* a reconnection whose answers lack optional fields (bits of om:
                                      1 executor_id, 2 agent_id, 4 source): as a step it is OReconnect,
                                      its answers are processed by [OAnswerBare om] *)
-| OAnswerBare (om : N).           (* one reconciliation answer that lacks the fields om is processed *)
+| OAnswerBare (om : N)            (* one reconciliation answer that lacks the fields om is processed *)
+| OKillIds (ts : list N).         (* KillTasks with an explicit list of task ids (CleanupTasks RPC with ids,
+                                     repeated teardown): ids that are stale, already gone or locked by an
+                                     environment are not killable and must change nothing *)
 
 Inductive call :=
 | CSubscribe (carried : bool) (id : N)
@@ -174,6 +177,17 @@ Definition destroy (w : world) (e : N) (keep effective : bool) : world * list ca
 
 Definition cleanup (w : world) : world * list call :=
   let victims := filter (fun r => match rt_env r with None => true | Some _ => false end) (w_roster w) in
+  let ks := kill_set victims in
+  (mkW (w_failover w) (w_store w) (w_nextfw w) (master_kill ks (w_master w)) (w_mem w)
+       (remove_ids (map rt_id victims) (w_roster w)) (w_envs w) (w_ntask w) (w_nenv w) (w_pending w),
+   map CKill ks).
+
+(* KillTasks(ids): of the listed ids only the roster tasks that are not locked are killable; they
+   leave the roster and get KILL (like Cleanup restricted to the list); every other roster task -
+   listed or not - stays where it is *)
+Definition cleanup_ids (w : world) (ts : list N) : world * list call :=
+  let victims := filter (fun r => memN (rt_id r) ts &&
+                                  match rt_env r with None => true | Some _ => false end) (w_roster w) in
   let ks := kill_set victims in
   (mkW (w_failover w) (w_store w) (w_nextfw w) (master_kill ks (w_master w)) (w_mem w)
        (remove_ids (map rt_id victims) (w_roster w)) (w_envs w) (w_ntask w) (w_nenv w) (w_pending w),
@@ -292,6 +306,7 @@ Definition step (w : world) (o : op) : world * list call :=
   | OReconnectLost => resubscribe_after_loss (subscribe w)
   | OReconnectOmit _ => subscribe w
   | OAnswerBare om => answer_with w om
+  | OKillIds ts => cleanup_ids w ts
   end.
 
 Fixpoint run (w : world) (ops : list op) : world * list call :=
@@ -396,7 +411,10 @@ Definition corr18 (c : c18_case) : bool :=
    6  the observation is malformed (not one record per operation)
    7  a reconnection (its reconciliation answers, whatever fields they carry) left a roster task
       that was locked by an environment in the roster but no longer locked
-   8  Cleanup (explicit or at the start of a CreateEnvironment) sent KILL to a task that was locked
+   8  Cleanup (explicit or at the start of a CreateEnvironment) or KillTasks with a list of ids
+      sent KILL to a task that was locked
+   9  after an operation that tears no environment down and is no restart, a task that was locked
+      by an environment is no longer in the roster
    Clauses 1-3 are only demanded with failover enabled and while nobody tampered with the store. *)
 Definition is_tamper (o : op) : bool := match o with OStoreSet _ => true | _ => false end.
 
@@ -425,9 +443,15 @@ Definition mon_op (fo tampered : bool) (id0 : N) (o : op) (before after : obs) :
          if existsb (fun t => roster_locked t (o_roster before)) (o_kills after) then 4
          else if existsb (fun x => fst (snd x) && roster_has (fst x) (o_roster after)
                                    && negb (roster_locked (fst x) (o_roster after))) (o_roster before) then 7
+         else if negb (forallb (fun x => negb (fst (snd x)) || roster_has (fst x) (o_roster after)) (o_roster before)) then 9
          else 0
-       | OCleanup | OCreate _ =>
-         if existsb (fun t => roster_locked t (o_roster before)) (o_kills after) then 8 else 0
+       | OCleanup | OCreate _ | OKillIds _ =>
+         if existsb (fun t => roster_locked t (o_roster before)) (o_kills after) then 8
+         else if negb (forallb (fun x => negb (fst (snd x)) || roster_has (fst x) (o_roster after)) (o_roster before)) then 9
+         else 0
+       | OStart _ | ODie _ | OMesosState _ _ | OStoreSet _ | ORun _ | OLost _ | OCreateHeld _ _ =>
+         if negb (forallb (fun x => negb (fst (snd x)) || roster_has (fst x) (o_roster after)) (o_roster before)) then 9
+         else 0
        | _ => 0
        end.
 
@@ -521,7 +545,7 @@ Definition no_tamper (ops : list op) : bool := forallb (fun o => negb (is_tamper
 Definition tame (o : op) : bool :=
   match o with
   | OCreate _ | OStart _ | ODestroy _ _ | ODie _ | OMesosState _ _ | OCleanup | OAnswer
-  | OCreateHeld _ _ | ORun _ | OLost _ | OAnswerBare _ => true
+  | OCreateHeld _ _ | ORun _ | OLost _ | OAnswerBare _ | OKillIds _ => true
   | ODestroyStuck _ | OStoreSet _ | OReconnect | OCrash _ _
   | OLoseAnswers | OCrashLost _ _ | OReconnectLost | OReconnectOmit _ => false
   end.
